@@ -288,6 +288,7 @@ Proof.
   - unfold collect_job. destruct (st_eqb (jstat j0) RUNNING); cbn; discriminate.
   - exact (Forall_nth _ _ _ _ Pr E).
   - exact (Forall_nth _ _ _ _ Pr E).
+  - exact (Forall_nth _ _ _ _ Pr E).
   - intros _ _ X. apply negb_false_iff in X. exact X.
   - apply andb_true_iff in E as [E1 _]. rewrite E1. apply Forall_forall. intros x _ _ _ _. reflexivity.
 Qed.
@@ -416,6 +417,7 @@ Proof.
   - rewrite nth_app_new. destruct (Nat.eqb j (length (jobs g))) eqn:Ej.
     + apply Nat.eqb_eq in Ej. apply nth_some_lt in Hj. lia.
     + exists jb. split; [exact Hj| split; [exact D1| split; [exact D2| exact D3]]].
+  - (* it was never launched *) match goal with Hm : mem_st RUNNING _ && _ = true |- _ => rewrite D3 in Hm; discriminate Hm end.
   - rewrite D2 in E0. discriminate E0.
 Qed.
 
@@ -491,4 +493,39 @@ Proof.
   pose proof (races_mono _ _ _ _ E) as M1. pose proof (races_mono_run _ _ _ _ R) as M2.
   rewrite (relaxed_step_strict f k g e g1 E ltac:(lia)). destruct (IH g1 g' R ltac:(lia)) as [A B]. split; [exact A|].
   rewrite B. reflexivity.
+Qed.
+
+(* ---------- zombies: a job given up by close() may still run in a pool worker, but nothing it does is reported ----------
+   On the thread / process / loky backends close() cannot interrupt (or recall) the run-function of a job that has a worker:
+   it may still start, poll and return after the job was written CANCELLED.  These events change neither the job's status
+   nor its history nor its row. *)
+Definition zombie_of (jb0 jb : job) : Prop := jph jb = TKilled /\ jstat jb = jstat jb0 /\ jhist jb = jhist jb0.
+
+Lemma zombie_step c g e g' j jb0 jb : gstep c g e = Some g' -> getj g j = Some jb -> zombie_of jb0 jb ->
+  exists jb', getj g' j = Some jb' /\ zombie_of jb0 jb'.
+Proof.
+  intros H Hj D. destruct D as (D1 & D2 & D3).
+  destruct e; step_inv H; view j.
+  all: try (exists jb; split; [exact Hj| split; [exact D1| split; [exact D2| exact D3]]]).
+  all: try match goal with Hk : nth_error (jobs ?g) ?jj = Some ?x, Hj' : nth_error (jobs ?g) ?jj = Some ?y |- _ => rewrite Hj' in Hk; injection Hk as <- end.
+  all: try congruence.
+  all: try (eexists; split; [reflexivity|]; split; [exact D1| split; [exact D2| exact D3]]).
+  rewrite nth_app_new. destruct (Nat.eqb j (length (jobs g))) eqn:Ej.
+  - apply Nat.eqb_eq in Ej. apply nth_some_lt in Hj. lia.
+  - exists jb. split; [exact Hj| split; [exact D1| split; [exact D2| exact D3]]].
+Qed.
+
+Theorem killed_job_is_final c w b tr1 tr2 g1 g j jb1 :
+  grun c (ginit w b) tr1 = Some g1 -> getj g1 j = Some jb1 -> jph jb1 = TKilled -> grun c g1 tr2 = Some g ->
+  exists jb, getj g j = Some jb /\ jph jb = TKilled /\ jstat jb = jstat jb1 /\ jhist jb = jhist jb1 /\
+             lookup_row j (rows g) = lookup_row j (rows g1).
+Proof.
+  intros R1 Hj Ph R2.
+  assert (Run : forall tr ga gb jba, grun c ga tr = Some gb -> getj ga j = Some jba -> zombie_of jb1 jba -> exists jbb, getj gb j = Some jbb /\ zombie_of jb1 jbb).
+  { induction tr as [|e t IH]; intros ga gb jba Ra Ha Da; cbn [grun] in Ra; [injection Ra as <-; eauto|].
+    destruct (gstep c ga e) as [gc|] eqn:Ec; [|discriminate]. destruct (zombie_step c ga e gc j jb1 jba Ec Ha Da) as (jbc & Hc & Dc). eapply IH; eauto. }
+  destruct (Run tr2 g1 g jb1 R2 Hj (conj Ph (conj eq_refl eq_refl))) as (jb & Hg & (Z1 & Z2 & Z3)).
+  exists jb. split; [exact Hg|]. split; [exact Z1|]. split; [exact Z2|]. split; [exact Z3|].
+  pose proof (inv_run c tr1 _ _ (inv_init c w b) R1) as I1. pose proof (inv_run c tr2 _ _ I1 R2) as I.
+  rewrite (inv_rows _ _ I j), (inv_rows _ _ I1 j). unfold rows_of. rewrite Hg, Hj. unfold row_of. rewrite Z1, Ph, Z2. reflexivity.
 Qed.
